@@ -16,6 +16,8 @@ import (
 type Node struct {
 	Dir     bool   `json:"dir,omitempty"`
 	Content string `json:"content,omitempty"`
+	// Link: the entry is a symbolic link with this (relative) target
+	Link string `json:"link,omitempty"`
 }
 
 // Tree maps clean absolute slash paths to nodes. "/" is the served root.
@@ -39,7 +41,9 @@ func (t Tree) Canon() string {
 	var sb strings.Builder
 	for _, k := range keys {
 		n := t[k]
-		if n.Dir {
+		if n.Link != "" {
+			fmt.Fprintf(&sb, "%s->%s ", k, n.Link)
+		} else if n.Dir {
 			fmt.Fprintf(&sb, "%s/ ", k)
 		} else {
 			fmt.Fprintf(&sb, "%s=%q ", k, n.Content)
@@ -105,7 +109,11 @@ func Materialise(root string, t Tree) {
 	for _, k := range keys {
 		n := t[k]
 		p := filepath.Join(root, filepath.FromSlash(k))
-		if n.Dir {
+		if n.Link != "" {
+			if err := os.Symlink(n.Link, p); err != nil {
+				panic(err)
+			}
+		} else if n.Dir {
 			if err := os.MkdirAll(p, 0o755); err != nil {
 				panic(err)
 			}
@@ -119,6 +127,9 @@ func Materialise(root string, t Tree) {
 	for i := len(keys) - 1; i >= 0; i-- {
 		k := keys[i]
 		p := filepath.Join(root, filepath.FromSlash(k))
+		if t[k].Link != "" {
+			continue // a link has no time of its own to set (Chtimes follows it)
+		}
 		mt := FixedMtime(k, t[k].Content)
 		os.Chtimes(p, mt, mt)
 	}
@@ -146,6 +157,12 @@ func Snapshot(root string) (t Tree, stamp string) {
 		k := "/" + filepath.ToSlash(rel)
 		if rel == "." {
 			k = "/"
+		}
+		if fi.Mode()&os.ModeSymlink != 0 {
+			target, _ := os.Readlink(p)
+			t[k] = Node{Link: target}
+			fmt.Fprintf(&sb, "%s -> %s;", k, target)
+			return nil
 		}
 		if fi.IsDir() {
 			t[k] = Node{Dir: true}
